@@ -356,12 +356,18 @@ package main
 //@   ensures nonNilMeta(meta)
 //@   # C14: the frame getter is a real function (tooling.LoadDataFromDataFrames calls it for every next link)
 //@   requires dataFrameGetter != nil
+//@   # C14: as getTransactionAndMetaFromNode below (JSON-RPC side)
+//@   # (a transaction without signatures is handed back empty with a nil error before the metadata is looked at: existing behaviour)
+//@   ensures result2 == nil && len(tx.Signatures) > 0 ==> called(tooling.LoadDataFromDataFrames) == 2
 //@   noframe
 
 //@ func getTransactionAndMetaFromNode
 //@   requires transactionNode != nil
 //@   # C14: the frame getter is a real function (tooling.LoadDataFromDataFrames calls it for every next link)
 //@   requires dataFrameGetter != nil
+//@   # C14 (an altered, missing or mixed frame gives an error, not different bytes): a successful answer went through the
+//@   # checked reassembly for BOTH payloads (transaction data and metadata); no path hands out frame bytes unchecked
+//@   ensures result2 == nil ==> called(tooling.LoadDataFromDataFrames) == 2
 //@   noframe
 
 //@ func getErr
